@@ -418,6 +418,29 @@ type harness struct {
 	pendingTruth map[int]*flowTruth
 	importBatch  []string
 	world        map[uint64]*flowTruth // every existing stream (for definitions with a sub-query)
+	// the state file that the most recent state save replaced (and removed), and the scenario line of that save
+	removedState *stateFileCopy
+	removedAt    int
+}
+
+type stateFileCopy struct {
+	name string
+	data []byte
+}
+
+// stateFiles reads the (small) state files of the live service
+func (h *harness) stateFiles() map[string][]byte {
+	_, _, _, stateDir, _ := h.dirs()
+	res := map[string][]byte{}
+	es, _ := os.ReadDir(stateDir)
+	for _, e := range es {
+		if !e.IsDir() {
+			if b, err := os.ReadFile(filepath.Join(stateDir, e.Name())); err == nil {
+				res[e.Name()] = b
+			}
+		}
+	}
+	return res
 }
 
 func (h *harness) complain(prop, format string, a ...interface{}) {
@@ -945,6 +968,21 @@ func (h *harness) step(line string) (event, error) {
 	}
 	ev := event{"op": f[0]}
 	before := h.prev
+	sf0 := h.stateFiles()
+	defer func() {
+		sf1 := h.stateFiles()
+		fresh := false
+		for n := range sf1 {
+			if _, ok := sf0[n]; !ok {
+				fresh = true
+			}
+		}
+		for n, b := range sf0 {
+			if _, ok := sf1[n]; !ok && fresh {
+				h.removedState, h.removedAt = &stateFileCopy{name: n, data: b}, h.lineNo
+			}
+		}
+	}()
 	arr0 := map[string]int{}
 	for _, k := range []string{"import", "merge", "tag", "convert"} {
 		arr0[k] = h.g.arrived(k)
@@ -1642,6 +1680,10 @@ func gen(seed uint64, n int, w io.Writer) {
 				fmt.Fprintf(w, "webhook %s http://127.0.0.1:9/hook%d\n", lib.Pick(r, []string{"add", "add", "del"}), r.Intn(3))
 			default:
 				fmt.Fprintf(w, "endpoint %s 127.0.0.1:%d\n", lib.Pick(r, []string{"add", "add", "del"}), 9+r.Intn(3))
+			}
+			if r.Chance(1, 2) {
+				// a kill inside the state save of the call just made (old and new state file both on disk)
+				fmt.Fprintf(w, "crashcheck 100\n")
 			}
 		}
 		if genOnDemand && r.Chance(1, 4) {
